@@ -8,14 +8,10 @@
 
    Pointer strings are C strings: byte lists without 0 (the drivers never send a 0).
 
-   Repair hooks.  Every place where DESIGN.md section 5 (C12) records a defect is isolated in
-   one small definition, so that a local repair of the C code is a one-line change here:
-     [elem_is_target]    `if (obj)` after json_object_array_get_idx in
-                         json_pointer_get_single_path (a JSON null element is "not found")
-     [idx_reject_empty]  is_valid_index has no test for the empty token
-     [set_member_name]   json_pointer_set_single_path passes the raw token to
-                         json_object_object_add
-     [member_token_ok]   no check that '~' is followed by '0' or '1' (RFC 6901 section 3)  *)
+   The four defects recorded in DESIGN.md section 5 (C12) were repaired in json_pointer.c
+   (a JSON null array element is a valid target; the empty token is not an index; set
+   unescapes the last token; '~' must be followed by '0' or '1' — is_valid_escaping); this
+   file follows the repaired code. *)
 From JC Require Import Base Value.
 Local Open Scope Z_scope.
 
@@ -69,10 +65,6 @@ Definition strtoull10 (s : list byte) : Z * bool :=
   let v := dec_acc 0 s in
   if v >? UINT64_MAX then (UINT64_MAX, true) else (v, false).
 
-(* HOOK: the C code has no test for the empty token (it passes the digit loop vacuously and
-   strtoull("") is 0).  Repair: [zlen tok =? 0]. *)
-Definition idx_reject_empty (tok : list byte) : bool := false.
-
 Inductive ires :=
 | IOk (idx : Z) (erange : bool)     (* returns 1, *idx = idx; erange: errno = ERANGE was set on the way *)
 | IErr (e : errno).                 (* returns 0, errno = e *)
@@ -83,8 +75,8 @@ Definition is_valid_index (tok : list byte) : ires :=
     | c :: _ => if is_plain_digit c then IOk (c - 48) false else IErr EINVAL
     | [] => IErr EINVAL
     end
-  else if idx_reject_empty tok then IErr EINVAL
-  else if hd 0 tok =? 48 then IErr EINVAL            (* path[0] == '0'; path[0] of "" is the terminator *)
+  else if zlen tok =? 0 then IErr EINVAL             (* the empty token is not an array index *)
+  else if hd 0 tok =? 48 then IErr EINVAL            (* path[0] == '0' *)
   else if negb (forallb is_plain_digit tok) then IErr EINVAL
   else let '(v, sat) := strtoull10 tok in IOk v sat.
 
@@ -142,14 +134,16 @@ Definition array_add (al : alloc) (l : list jv) (v : jv) : ares :=
 
 (* ---------------------------------------------------------------- get *)
 
-(* HOOK: `obj = json_object_array_get_idx(obj, *idx); if (obj) {…found…}` — a JSON null
-   element is reported as ENOENT.  Repair: [true]. *)
-Definition elem_is_target (v : jv) : bool :=
-  match v with JNull => false | _ => true end.
-
-(* HOOK: member tokens are unescaped without checking that every '~' is followed by '0' or
-   '1'.  Repair: the RFC 6901 section 3 test. *)
-Definition member_token_ok (tok : list byte) : bool := true.
+(* is_valid_escaping(path): every '~' is followed by '0' or '1'; the loop advances one byte
+   at a time, path[1] of the last byte is the terminator *)
+Fixpoint is_valid_escaping (tok : list byte) : bool :=
+  match tok with
+  | [] => true
+  | c :: t =>
+      if (c =? 126) && negb (match t with d :: _ => (d =? 48) || (d =? 49) | [] => false end)
+      then false
+      else is_valid_escaping t
+  end.
 
 Inductive spres :=
 | SPOk (st : step) (child : jv)
@@ -163,13 +157,13 @@ Definition get_single_path (obj : jv) (tok : list byte) : spres :=
       | IErr e => SPErr e
       | IOk idx _ =>
           if idx >=? zlen l then SPErr ENOENT
-          else match znth l idx with
-               | Some v => if elem_is_target v then SPOk (inr idx) v else SPErr ENOENT
+          else match znth l idx with      (* in range: the element, JSON null (NULL) included *)
+               | Some v => SPOk (inr idx) v
                | None => SPErr ENOENT
                end
       end
   | _ =>
-      if negb (member_token_ok tok) then SPErr EINVAL else
+      if negb (is_valid_escaping tok) then SPErr EINVAL else
       let name := unescape_in_place tok in
       match obj with
       | JObj ms => match object_get ms name with
@@ -265,11 +259,6 @@ Inductive sres :=
 | SOk (t : jv)                 (* returns 0 (or vasprintf's 0); the new tree *)
 | SErr (e : errno).            (* returns -1; the tree is unchanged, the value still the caller's *)
 
-(* HOOK: json_pointer_set_single_path hands the token as written to json_object_object_add
-   ("path replacements should have been done in json_pointer_get_single_path()" — they were
-   done on the copy, and only for the tokens before the last).  Repair: [unescape_in_place tok]. *)
-Definition set_member_name (tok : list byte) : list byte := tok.
-
 Definition is_dash (tok : list byte) : bool :=
   match tok with [c] => c =? 45 | _ => false end.
 
@@ -291,8 +280,10 @@ Definition set_single_path (cb : array_cb) (al : alloc) (parent : jv) (tok : lis
             match cb al l idx v with AOk l' => SOk (JArr l') | AFail e => SErr (fail_errno sat e) end
         end
   | JObj ms =>
-      if negb (member_token_ok tok) then SErr EINVAL
-      else SOk (JObj (object_add ms (set_member_name tok) v))
+      (* the last token has not been through get_single_path: checked and unescaped on a copy
+         (strdup; its failure belongs to C08) *)
+      if negb (is_valid_escaping tok) then SErr EINVAL
+      else SOk (JObj (object_add ms (unescape_in_place tok) v))
   | _ => SErr ENOENT
   end.
 
